@@ -219,6 +219,38 @@ func checkErrorRecording(r *Run, prog *Program, pfx string) {
 	// errList.add appends unconditionally
 	okAdd := len(add.Blocks) == 1
 	r.Check(pfx+".engine", "errList.add-unconditional", prog.pos(add.Pos()), okAdd, "(*errList).add branches: an error may not be appended")
+	// … and what is on the list is what the list says: the text of one entry alone stands for the whole list only when the
+	// list has that one entry (the budget error is appended last: a rendering that stops early hides it)
+	if em := prog.Method(prog.GrammarSSA, "errList", "Error", false); em != nil && len(em.Params) == 1 {
+		pe := paramSym(em.Params[0])
+		lenKey := (&Sym{K: sLen, A: pe}).Key()
+		psE := NewPathSim(prog)
+		psE.maxVisits = 2
+		okE, whyE := true, ""
+		for _, sm := range psE.Run(em) {
+			if sm.Ret == nil || len(sm.Results) != 1 {
+				continue
+			}
+			res := sm.Results[0]
+			fnE, call := calleeOfSym(res)
+			if call == nil || fnE == nil && !call.Common().IsInvoke() {
+				continue
+			}
+			if call.Common().IsInvoke() && call.Common().Method.Name() != "Error" {
+				continue
+			}
+			args := symArgs(sm.St, res)
+			if len(args) != 1 || !(args[0].K == sLoad && args[0].A != nil && args[0].A.K == sIndexAddr && args[0].A.A != nil && args[0].A.A.Key() == pe.Key()) {
+				continue
+			}
+			// a single entry's own text is the whole answer on this path
+			if c, has := sm.St.eqc[lenKey]; !(has && c == "const(1)") {
+				okE = false
+				whyE = "the text of one entry is returned for a list whose length is " + c + " [path " + strings.Join(sm.St.trail, " ") + "]"
+			}
+		}
+		r.Check(pfx+".engine", "errList.Error-renders-every-entry", prog.pos(em.Pos()), okE, "errList.Error answers with a single entry's text for a list that has more than that entry: "+whyE)
+	}
 }
 
 // checkRuleRefAndClasses: two engine helpers the rule table relies on: a rule reference is resolved through the rule table
